@@ -198,8 +198,9 @@ class XgettextProgram:
         self.interpreter.add_target(ct.name, ct)
         return ct
 
-    def _get_source_files(self, sources: T.Iterable[SourcesType]) -> T.Set[mesonlib.File]:
-        source_files = set()
+    def _get_source_files(self, sources: T.Iterable[SourcesType]) -> 'mesonlib.OrderedSet[mesonlib.File]':
+        # keep the order in which the sources were given: it is the input order of the pot target
+        source_files: mesonlib.OrderedSet[mesonlib.File] = mesonlib.OrderedSet()
         for source in sources:
             if isinstance(source, mesonlib.File):
                 source_files.add(source)
@@ -214,8 +215,8 @@ class XgettextProgram:
                 source_files.update(mesonlib.File.from_built_file(source.get_subdir(), f) for f in source.get_outputs())
         return source_files
 
-    def _get_depends(self, sources: T.Iterable[SourcesType]) -> T.Set[build.CustomTarget]:
-        depends = set()
+    def _get_depends(self, sources: T.Iterable[SourcesType]) -> 'mesonlib.OrderedSet[build.CustomTarget]':
+        depends: mesonlib.OrderedSet[build.CustomTarget] = mesonlib.OrderedSet()
         for source in sources:
             if isinstance(source, build.BuildTarget):
                 dependencies = source.get_dependencies()
